@@ -69,6 +69,7 @@ def explore(ctx, depth):
     cases = docrun.make_cases(ctx, 30 if depth == 'quick' else 300, kern_only=True, max_measures=5 if depth == 'quick' else 7, double_bars=True)
     docrun.fill_views(ctx, cases, 'kern', docrun.ALLC, '_v')
     docrun.raw_range_tie(ctx, docrun.raw_cases(ctx, [c.adoc for c in cases[:6 if depth == 'quick' else 60]], kinds=('plus', 'late-header', 'blank')))
+    docrun.reuse_objects(ctx, cases, steps=60)
     all_exps = []
     for case in cases:
         starts = measure_rows(case.adoc)
@@ -181,6 +182,36 @@ def explore(ctx, depth):
 
 
     long_ranges(ctx)
+    # the file-writing entry point takes the same measure range: `dump(document, path, from_measure=a, to_measure=b)` writes what `dumps` returns
+    # and rejects what `dumps` rejects (round 6, C07_r6_1: `to_measure=from_measure` in the forwarded keywords)
+    import tempfile, os, shutil
+    tmp = tempfile.mkdtemp(prefix='kernverif_c07_')
+    try:
+        for ci, case in enumerate(cases[:8 if depth == 'quick' else 60]):
+            if case.doc is None:
+                continue
+            M = case.M
+            prs = [(a, b) for a in (None, 1, 2, M) for b in (None, 1, M - 1, M, M + 1) if not (a is None and b is None)]
+            for k, (a, b) in enumerate(prs):
+                path = os.path.join(tmp, 'r%d_%d.krn' % (ci, k))
+                def run_dump():
+                    kw = {}
+                    if a is not None:
+                        kw['from_measure'] = a
+                    if b is not None:
+                        kw['to_measure'] = b
+                    kp.dump(case.doc, path, **kw)
+                    with open(path, encoding='utf-8', newline='') as fh:
+                        return fh.read()
+                written = call(run_dump)
+                ref = docrun.dumps_public(case, {'from': a, 'to': b})
+                ctx.seen({'text': case.text, 'from_measure': a, 'to_measure': b, 'clause': 'dump to a file with a measure range'}, True)
+                if written != ref:
+                    ctx.fail({'text': case.text, 'from_measure': a, 'to_measure': b, 'clause': 'dump to a file with a measure range'},
+                             'dump() with a measure range does not write what dumps() returns for the same range (or does not reject what dumps() rejects)',
+                             impl=written, expected=ref)
+    finally:
+        shutil.rmtree(tmp, ignore_errors=True)
 
 
 def long_ranges(ctx):
